@@ -390,7 +390,9 @@ func runC18(c *Ctx, r *Report) {
 	r.Doc("R-C18.8", "the link-key codec configured for a log is the one its loaders read with and the one a reopened log writes with")
 	optionForwarding(c, r, "R-C18.8", append(append(loaderFetchSpecs(), constructorLoaderSpecs()...), constructorLogSpecs()...), "IO")
 	r.Doc("R-C18.11", "the loops that seal, clear, restore and derive the nonce from the links process every link")
-	loopsComplete(c, r, "R-C18.11", func(fn *Fn) bool { return rootNamed(fn, "PreSign", "DecryptLinks", "NonceRefForEntry", "ToJsonableEntry") || inPkgs(c.P, fn, "enc") }, "links after the point where the loop stops are not sealed or restored")
+	loopsComplete(c, r, "R-C18.11", func(fn *Fn) bool {
+		return rootNamed(fn, "PreSign", "DecryptLinks", "NonceRefForEntry", "ToJsonableEntry") || inPkgs(c.P, fn, "enc")
+	}, "links after the point where the loop stops are not sealed or restored")
 	r.Doc("R-C18.10", "sealing and opening the links examine every error result before going on: a failed seal or open is never followed by a block written (or links returned) from the zero values")
 	errDiscipline(c, r, "R-C18.10", func(fn *Fn) bool {
 		return rootNamed(fn, "PreSign", "DecryptLinks", "NonceRefForEntry") || inPkgs(c.P, fn, "enc")
